@@ -81,6 +81,13 @@ CTOR_TEMPLATES = {
     "ctor_zone": "http://[fe80::1%{}]/p",
     "ctor_http_noauth": "http:{}",
     "ctor_netpath": "//{}",
+    # the word *inside* the structural skeleton (what the splitter strips or trips over: tab/CR/LF, blanks, delimiters, non-ASCII)
+    "ctor_in_scheme": "ht{}tp://h.com/p?q#f",
+    "ctor_after_scheme": "http{}://h.com/p",
+    "ctor_in_slashes": "http:/{}/h.com/p",
+    "ctor_rooted_slashes": "/{}/h.com/a",
+    "ctor_lead": "{}http://h.com/p",
+    "ctor_in_port": "http://h.com:8{}/p",
 }
 
 for _n, _t in CTOR_TEMPLATES.items():
@@ -445,3 +452,57 @@ def _ctx_routes():
 
 CTX_TEMPLATES = {}
 NAMES_CTX1, NAMES_CTX2 = _ctx_routes()
+
+
+# ---- URL.build under a matrix of its *other* arguments ----------------------------------------------------------------
+# (the word is one decoded component; scheme, host kind, port - absent / the scheme's default / another / 0 - and the presence
+# of the other userinfo part take every combination; an empty-but-given `query` next to `query_string` is one more dimension)
+BCTX_SCHEMES = ["http", "https", "x", ""]
+BCTX_HOSTS = ["h.com", "::1", "\xe9.com"]
+BCTX_PORTS = [None, "default", 81, 0]
+BCTX_UI = ["none", "user", "both"]
+_DEFAULTS = {"http": 80, "https": 443}
+BCTX_TEMPLATES = {}
+
+
+def _bctx_routes():
+    names = []
+    for pos in ("user", "password", "path", "query_string", "fragment"):
+        for sc in BCTX_SCHEMES:
+            for host in BCTX_HOSTS:
+                for port in BCTX_PORTS:
+                    for ui in BCTX_UI:
+                        for emptyq in ((None, {}, "") if pos == "query_string" else (None,)):
+                            p = _DEFAULTS.get(sc, 8080) if port == "default" else port
+                            kw = {"scheme": sc, "host": host, "path": "/p"}
+                            if p is not None:
+                                kw["port"] = p
+                            if ui != "none" and pos != "user":
+                                kw["user"] = "u"
+                            if ui == "both" and pos != "password":
+                                kw["password"] = "p"
+                            if pos == "password" and ui == "none":
+                                pass   # a password without a user is legal
+                            if emptyq is not None:
+                                kw["query"] = emptyq
+                            name = "bctx|%s|%s" % (pos, ",".join("%s=%r" % (k, v) for k, v in sorted(kw.items())))
+                            if name in ROUTES:
+                                continue
+
+                            def fn(w, kw=kw, pos=pos):
+                                k2 = dict(kw)
+                                k2[pos] = ("/" + w) if pos == "path" else w
+                                return impl.URL.build(**k2)
+                            if pos == "path":
+                                sup = _one("path", "decoded", lambda w: "/" + w, has_authority=True)
+                            elif pos == "query_string":
+                                sup = _one("query", "qs", has_authority=True)
+                            else:
+                                sup = _one(pos, "decoded", has_authority=True)
+                            ROUTES[name] = Route(name, fn, sup, "build")
+                            BCTX_TEMPLATES[name] = kw
+                            names.append(name)
+    return names
+
+
+NAMES_BCTX = _bctx_routes()
